@@ -8,10 +8,14 @@
   `BOOT_TIME` (lead L2), when the pid-0 / negative-pid refusals go away, or when a method is wired to
   another signal.
 
-  Histories: any list of kernel events (spawn / exit / reap / tick / clock step) and psutil calls
+  Histories: any list of kernel events (spawn / exit / reap / tick / clock step / **permission change**: from now
+  on the kernel refuses kill / setpriority / ioprio_set / sched_setaffinity / prlimit on a PID with EPERM or EACCES,
+  or allows them again) and psutil calls
   (Process(pid), is_running, signals, setters, ppid, boot_time, create_time, ==, hash, process_iter,
-  oneshot() entry/exit, str) — the only hypothesis is that the published boot time is never 0 (`b0 ≠ 0`,
-  `HistOK`).  The object list of a state holds the objects built by `Process(pid)` AND those built and
+  oneshot() entry/exit, str) — the hypotheses are that the published boot time is never 0 (`b0 ≠ 0`) and that
+  `/proc/pid/stat` can always be opened (`HistOK`; what happens otherwise is characterised at the end of the file,
+  and `C01_known_start_no_wrong_owner` holds without that hypothesis).  The effect log holds every OS call psutil
+  made, carried out or refused by the kernel (`Eff.res`).  The object list of a state holds the objects built by `Process(pid)` AND those built and
   yielded by `process_iter()` (Props/C02.lean: `C02_iter_ghost_meaning`, `C02_iter_handles_valid`), so
   "object i" below ranges over both kinds.
 -/
